@@ -402,12 +402,13 @@ def main():
     quick = chk.tier == "quick"
     cases = load_corpus()
     n_corpus = len(cases)
-    n_dummy, n_sub = (700, 40) if quick else (7000, 400)
+    n_dummy, n_sub = (700, 40) if quick else (5000, 300)
     for k in range(n_dummy):
         cases.append(gen_case(chk.rng, k, "dummy"))
     methods = ["fork"] if quick else ["fork", "forkserver", "spawn"]
     for k in range(n_sub):
-        cases.append(gen_case(chk.rng, k, "subproc", start_method=methods[k % len(methods)] if k % 4 == 3 or quick else "fork"))
+        # forkserver / spawn start a fresh interpreter per worker (several seconds): thorough tier only, every 6th history
+        cases.append(gen_case(chk.rng, k, "subproc", start_method="fork" if quick or k % 6 else methods[1 + (k // 6) % 2]))
     impls = []
     for c in cases:
         try:
